@@ -1,6 +1,7 @@
 /-
   C03 — A simple paragraph is kept or dropped as a whole.
 -/
+import Distill.Props.DomHelpers
 import Distill.Proofs.SimplePara
 import Distill.Props.FiltersProps
 import Distill.Model.TextDoc
